@@ -951,11 +951,8 @@ Proof.
   - unfold EL.right_length, EL.ev_digest_bytes. cbn [EL.ev_digest EL.d_bytes]. rewrite Hl. reflexivity.
 Qed.
 
-Lemma startup_bytes_small l : l < 128 -> startup_bytes l = EL.startup_data l.
-Proof.
-  intros Hl. unfold startup_bytes, utf8_byte, EL.startup_data.
-  replace (l <? 128) with true by lia. reflexivity.
-Qed.
+Lemma startup_bytes_eq l : startup_bytes l = EL.startup_data l.
+Proof. reflexivity. Qed.
 
 Lemma init_val_seed a p l :
   is_supported a = true ->
@@ -967,7 +964,7 @@ Proof. intros Ha. destruct (is_supported_cases a Ha) as [-> | ->]; destruct p; r
 
 (** tpmeventlog.Replay on the emitted log *)
 Lemma Inv_replay l b t p a :
-  Inv l b t -> (b = true /\ l < 128) \/ (b = false /\ l = 0) ->
+  Inv l b t -> b = true \/ (b = false /\ l = 0) ->
   (p = 0 \/ p = 1) -> is_supported a = true ->
   exists v, get (pcrs t) p a = Ok v /\ EL.replay H (to_parsed (evlog t)) p a = Ok v.
 Proof.
@@ -991,12 +988,12 @@ Proof.
   { exists size. split; [exact Hs|]. split; [exact Hp|]. rewrite Esel, Ssev.
     destruct (b && (p =? 0)) eqn:C.
     - apply andb_true_iff in C. destruct C as [Cb Cp]. apply Z.eqb_eq in Cp. subst b p.
-      destruct Hb as [[_ Hl]|[C _]]; [|discriminate]. split.
+      clear Hb. split.
       + cbn [app]. constructor; [|exact Gl]. unfold EL.right_length, EL.ev_digest_bytes.
         cbn [EL.ev_digest EL.d_bytes]. rewrite repeat_length. reflexivity.
       + right. split; [reflexivity|]. eexists. eexists. exists l. cbn [app].
         split; [reflexivity|]. split; [reflexivity|]. split; [|exact Gm].
-        cbn [EL.ev_data]. apply startup_bytes_small. exact Hl.
+        cbn [EL.ev_data]. apply startup_bytes_eq.
     - cbn [app]. split; [exact Gl|]. left. exact Gm. }
   destruct (ELP.wellformed_accepted H hash_len_ok_H log p a WF) as [v Ev].
   exists v. split; [|exact Ev].
@@ -1007,10 +1004,10 @@ Proof.
   unfold EL.seed. rewrite Hs, Esel, Ssev.
   destruct Hp as [-> | ->].
   - change (Z.to_nat 0) with O. cbn iota. rewrite andb_true_r. destruct b.
-    + destruct Hb as [[_ Hl]|[C _]]; [|discriminate]. cbn [app EL.ev_type EL.ev_data].
+    + clear Hb. cbn [app EL.ev_type EL.ev_data].
       change (0 =? 0) with true. change (EL.EV_NO_ACTION =? EL.EV_NO_ACTION) with true. cbn [andb].
-      rewrite (startup_bytes_small l Hl), ELP.parse_locality_startup. reflexivity.
-    + destruct Hb as [[C _]|[_ ->]]; [discriminate|]. cbn [app].
+      rewrite (startup_bytes_eq l), ELP.parse_locality_startup. reflexivity.
+    + destruct Hb as [C|[_ ->]]; [discriminate|]. cbn [app].
       assert (Z0 : EL.zeros size = EL.zeros (size - 1) ++ [0]).
       { apply ELP.zeros_snoc. unfold size. destruct (is_supported_cases a Ha) as [-> | ->]; cbv; reflexivity. }
       destruct (EL.selected (to_parsed mev) 0 a) as [|e r] eqn:Es; [symmetry; exact Z0|].
@@ -1047,7 +1044,7 @@ Qed.
 
 Theorem evlog_replay fl l logged p a :
   wf_flow l logged fl ->
-  (logged = true /\ l < 128) \/ (logged = false /\ l = 0) ->
+  logged = true \/ (logged = false /\ l = 0) ->
   (p = 0 \/ p = 1) -> is_supported a = true ->
   exists v, get (pcrs (s_tpm (fst (run_flow sim0 fl)))) p a = Ok v /\
             EL.replay H (to_parsed (evlog (s_tpm (fst (run_flow sim0 fl))))) p a = Ok v.
@@ -1123,14 +1120,14 @@ Lemma unlogged_locality_differs :
                EL.replay toy_hash (to_parsed (evlog (toy_run fl_unlogged_3))) 0 ALG_SHA1 = Ok v' /\ v <> v'.
 Proof. eexists. eexists. split; [|split]; try (vm_compute; reflexivity). vm_compute. discriminate. Qed.
 
-(** LogInit formats the locality with %c: from 128 on the entry holds two bytes
-    and ParseLocality rejects it *)
+(** a logged startup at a locality from 128 on (before the fix in /repo LogInit formatted the
+    locality with %c, two UTF-8 bytes, and ParseLocality rejected the simulator's own entry) *)
 Definition fl_locality_200 : list (list (BootSim.item (list Z))) :=
   [[IInitTPM 200 true]; [IEvent 0 toy_data 1 None]].
 
-Lemma locality_utf8_rejected :
+Lemma locality_200_replays :
   exists v, get (pcrs (toy_run fl_locality_200)) 0 ALG_SHA1 = Ok v /\
-            EL.replay toy_hash (to_parsed (evlog (toy_run fl_locality_200))) 0 ALG_SHA1 = Err EL.E_LOCALITY.
+            EL.replay toy_hash (to_parsed (evlog (toy_run fl_locality_200))) 0 ALG_SHA1 = Ok v.
 Proof. eexists. split; vm_compute; reflexivity. Qed.
 
 (** a TPMEvent whose event type is EV_NO_ACTION is extended but never replayed *)
